@@ -11,6 +11,9 @@ The world of one case: objects 0..n-1 of one kind (a few of a wrong class); the 
 `fmembers` (objects linked to a FOREIGN problem; with `qcopy` that second problem is a
 copy.deepcopy of the first, so its members are deep copies of the members); `keys`: objects with one
 key have the same value, so for Surface and Material they are == while their numbers agree.
+`read`: the members of a problem's collection are not built one by one but READ: an MCNP input holding them is
+written and `montepy.read_input` builds the problem, so every member has `old_number` = its number in the file;
+`parsed`: the other cells are parsed from an input line instead of `montepy.Cell()`.
 """
 import copy
 import json
@@ -27,12 +30,14 @@ VALUE_EQ_KINDS = ("surface", "material")     # classes that define __eq__ by val
 # ----------------------------------------------------------------------------
 # real objects
 # ----------------------------------------------------------------------------
-def _mk(kind, key, number):
+def _mk(kind, key, number, parsed=False):
     import montepy
     from montepy.input_parser.mcnp_input import Input
     from montepy.input_parser.block_type import BlockType
 
     if kind == "cell":
+        if parsed:
+            return montepy.Cell(Input([f"{number} 0 -9000 imp:n=1"], BlockType.CELL))
         c = montepy.Cell()
         c.number = number
         return c
@@ -84,6 +89,8 @@ def norm_case(c):
     c.setdefault("keys", list(range(n)))
     c.setdefault("fmembers", [])
     c.setdefault("qcopy", False)
+    c.setdefault("read", False)
+    c.setdefault("parsed", False)
     c["ops"] = [tuple(list(o[:1]) + [list(x) if isinstance(x, (list, tuple)) else x for x in o[1:]])
                 for o in c["ops"]]
     return c
@@ -102,6 +109,33 @@ def qcopy_ok(case):
     return len(set(f[:len(m)]) | set(m)) == 2 * len(m)
 
 
+def read_ok(case):
+    """the problem can be read from an input that holds the members"""
+    return bool(case.get("read") and case["clink"] and case["members"])
+
+
+def input_text(case):
+    """an MCNP input whose collection of the case's kind holds exactly the members, in order, with their
+    numbers (and, for surfaces / materials / transforms, the value that belongs to their key)"""
+    kind = case["kind"]
+    mem = [(case["nums"][m], case["keys"][m]) for m in case["members"]]
+    cells, surfs, data = [], ["9000 so 100"], ["mode n"]
+    if kind == "cell":
+        cells = [f"{n} 0 -9000 imp:n=1" for n, _ in mem]
+    elif kind == "universe":
+        cells = [f"{900 + i} 0 -9000 u={n} imp:n=1" for i, (n, _) in enumerate(mem)]
+    elif kind == "surface":
+        surfs = [f"{n} so {k + 0.5}" for n, k in mem]
+        cells = [f"1 0 -{mem[0][0]} imp:n=1"]
+    else:
+        cells = ["1 0 -9000 imp:n=1"]
+        if kind == "material":
+            data += [f"m{n} 1001.80c {0.25 + k}" for n, k in mem]
+        else:
+            data += [f"tr{n} {k}.5 0 0" for n, k in mem]
+    return "\n".join(["verif c06 read world"] + cells + [""] + surfs + [""] + data) + "\n"
+
+
 def needs_other(case):
     return bool(case["fmembers"]) or any(o[0] == "fappend" for o in case["ops"])
 
@@ -118,9 +152,21 @@ class World:
         deep = qcopy_ok(case)
         copies = set(case["fmembers"][:len(case["members"])]) if deep else set()
         self.objs = []
+        reading = read_ok(case)
         for oid, (num, ty, key) in enumerate(zip(case["nums"], case["types"], case["keys"])):
-            self.objs.append(None if oid in copies else _mk(kind if ty else other, key, num))
-        if case["clink"]:
+            if oid in copies or (reading and oid in case["members"]):
+                self.objs.append(None)
+            else:
+                self.objs.append(_mk(kind if ty else other, key, num, bool(case.get("parsed"))))
+        if reading:
+            import mp
+            self.problem = mp.read_problem(input_text(case), name="c06.i")
+            self.coll = _coll_of(self.problem, kind)
+            if [o.number for o in self.coll._objects] != [case["nums"][m] for m in case["members"]]:
+                raise RuntimeError("the problem read does not hold the members of the case")
+            for k, m in enumerate(case["members"]):
+                self.objs[m] = self.coll._objects[k]
+        elif case["clink"]:
             self.problem = montepy.MCNP_Problem("verif_c06")
             self.coll = _coll_of(self.problem, kind)
             for m in case["members"]:
@@ -455,6 +501,8 @@ def gen_case(rng, idx):
                 fmembers.append(i)
                 fused.add(nums[i])
     n = len(nums)
+    read = clink and bool(members) and rng.random() < 0.4
+    parsed = rng.random() < 0.5
     foreign = [i for i in fmembers]
     twins = [i for i in range(n) if types[i] and any(j != i and keys[j] == keys[i] for j in range(n))]
     nops = rng.choice([1, 2, 3, 5, 8, 12, 20, 40]) if rng.random() < 0.9 else rng.randint(40, 80)
@@ -494,6 +542,22 @@ def gen_case(rng, idx):
                        rng.choice([("get", nums[e]), ("setnum", e, nums[e]), ("get", k2), ("append", e)]),
                        ("get", nums[e])]
                 ops.extend(seq[rng.choice([0, 0, 1, 2]):rng.choice([3, 4, 5, 6])])
+                continue
+        if rng.random() < 0.07:
+            # a member goes away from the number it started with, someone else takes that number, the first
+            # one wants it back: whatever the object remembers about its first number, the answer is no
+            a = rng.choice(members) if members and rng.random() < 0.8 else rng.choice(typed)
+            others = [j for j in (members if rng.random() < 0.7 else typed) if j != a]
+            if others:
+                b = rng.choice(others)
+                away = hi + rng.randint(3, 12)
+                seq = [("setnum", a, away), ("setnum", b, nums[a]), ("setnum", a, nums[a]),
+                       rng.choice([("get", nums[a]), ("getitem", nums[a]), ("request_number", nums[a], 1)])]
+                if a not in members and rng.random() < 0.7:
+                    seq.insert(0, ("append", a))
+                if b not in members and rng.random() < 0.7:
+                    seq.insert(1, ("append", b))
+                ops.extend(seq)
                 continue
         k = rng.choices(names, weights)[0]
         o = pick_obj()
@@ -574,7 +638,7 @@ def gen_case(rng, idx):
             # what was added to the slice is not in this collection: its number stays free here
             ops.append(rng.choice([("get", nums[o]), ("request_number", nums[o], 1), ("setnum", o, member_number())]))
     return {"kind": kind, "clink": clink, "nums": nums, "types": types, "keys": keys, "members": members,
-            "fmembers": fmembers, "qcopy": qcopy, "ops": ops}
+            "fmembers": fmembers, "qcopy": qcopy, "read": read, "parsed": parsed, "ops": ops}
 
 
 def setup_ok(case):
@@ -618,8 +682,31 @@ def into_premise(cases):
 
 
 def shrink(case, failing):
-    """greedy delta-debugging over the op list"""
+    """delta-debugging over the op list: what follows the failing operation goes first, then blocks of
+    operations (halving), then single operations until nothing can be removed"""
     cur = dict(case)
+    try:
+        bad = check_case(cur)
+        if bad is not None and "at_op" in bad[1]:
+            cand = dict(cur, ops=list(cur["ops"])[:bad[1]["at_op"] + 1])
+            if len(cand["ops"]) < len(cur["ops"]) and failing(cand):
+                cur = cand
+    except Exception:
+        pass
+    size = len(cur["ops"]) // 2
+    while size >= 2:
+        i = 0
+        while i < len(cur["ops"]):
+            cand = dict(cur, ops=cur["ops"][:i] + cur["ops"][i + size:])
+            try:
+                ok = bool(cand["ops"]) and failing(cand)
+            except Exception:
+                ok = False
+            if ok:
+                cur = cand
+            else:
+                i += size
+        size //= 2
     changed = True
     while changed:
         changed = False
@@ -795,7 +882,7 @@ def replay_findings(ctx):
 
 
 def run(ctx):
-    n_cases = 600 if ctx.tier == "quick" else 24000
+    n_cases = 600 if ctx.tier == "quick" else 20000
     proved = ctx.prove()
     ok, log = vlib.coq_make(["Model/Coll.vo"])
     if not ok:
@@ -822,7 +909,8 @@ def run(ctx):
 
     dist = {"kinds": {}, "ops": {}, "results": {}, "linked": 0, "freestanding": 0, "op_count_hist": {},
             "second_problem": {"none": 0, "independent": 0, "deepcopy": 0}, "cases_with_equal_valued_objects": 0,
-            "remove_given_equal_non_member": 0, "candidates_linked_elsewhere": 0}
+            "remove_given_equal_non_member": 0, "candidates_linked_elsewhere": 0,
+            "members_read_from_an_input": 0, "cells_parsed_from_a_line": 0}
     corr_bad = 0
     first_corr = None
     near = None
@@ -835,6 +923,8 @@ def run(ctx):
         if c["kind"] in VALUE_EQ_KINDS and len(set(c["keys"])) < len(c["keys"]):
             dist["cases_with_equal_valued_objects"] += 1
         dist["remove_given_equal_non_member"] += len(split_model(ans)[2])
+        dist["members_read_from_an_input"] += 1 if read_ok(c) else 0
+        dist["cells_parsed_from_a_line"] += 1 if (c["kind"] == "cell" and c.get("parsed")) else 0
         b = str(min(len(c["ops"]) // 10 * 10, 80))
         dist["op_count_hist"][b] = dist["op_count_hist"].get(b, 0) + 1
         for o in c["ops"]:
